@@ -127,7 +127,7 @@ PROPS = {
                              "strace's when=N counts per thread; which kill points fired is recorded in the counters (fdatasync is never issued by this SQLite build)",
                              "lock errors of the shared-cache memory DSN ('database table is locked', 'Unable to serialize access') are failed operations, reported under mem_* counters, never violations",
                              "porcupine timeouts and harness deadlines give no verdict (inconclusive)"]),
-    "C16": dict(test="TestC16", level="exploration", runs=[("", "plain", 16), ("race", "race", 6)], race_scale=0.08, timeout=(900, 5400), floor=(25000, 600),
+    "C16": dict(test="TestC16", level="exploration", runs=[("", "plain", 16), ("race", "race", 6)], race_scale=(0.08, 0.02), timeout=(900, 5400), floor=(25000, 600),
                 rule="case = one generated batch of 1..350 API tuples over a pool of adversarial names (modes distinct / repeat-heavy / obj-eq-subj / mixed / page-edge / adversarial-small), "
                      "run through the real Mapper + SQLite persister (FromTuple/ToTuple/FromQuery/ToQuery/FromSubjectSet/ToTree, MapStringsToUUIDs[ReadOnly], MapUUIDsToStrings) and, for the valid-UTF-8 tuples, "
                      "through REST PUT/PATCH + gRPC Transact -> list (REST+gRPC, paged) -> list by name -> expand -> check on a fresh database; evaluation = one oracle decision (a position-wise / multiset comparison); "
@@ -160,7 +160,7 @@ PROPS = {
                      "non-trivial = a check that needed >= 2 storage calls, distinct by (case, mode, query), or a mutation, distinct by (case, site)",
                 assumptions=["'well typed' and 'conforming' are the harness's reading of the spec's type rules (cfgTypeErrors / conforms in c11_test.go)",
                              "checks that hit the wall-clock timeout give no decision and are only counted"]),
-    "C12": dict(test="TestC12", level="exploration", runs=[("", "plain", 16), ("race", "race", 6)], race_scale=0.05, timeout=(900, 5400), floor=(180000, 130000),
+    "C12": dict(test="TestC12", level="exploration", runs=[("", "plain", 16), ("race", "race", 6)], race_scale=(0.05, 0.02), timeout=(900, 5400), floor=(180000, 130000),
                 rule="evaluation = one input (random bytes, invalid UTF-8, token soups, valid and mutated programs, unterminated strings/comments at every offset, nesting 1..200, "
                      "long identifiers, CRLF, multibyte text, sizes up to 1 MiB, type-check fan-out family, operator placements) through schema.Parse under the step budget "
                      "100*(len+64) with the panic / result / position / rendering oracles, a deterministic quarter of them also through REST and gRPC; "
@@ -345,7 +345,7 @@ def run_children(prop, cfg, tier, seed, workdir, replay=None):
             usage = _rss_by_pgrp()
             for c in running:
                 # the race detector's shadow memory multiplies the footprint of the harness itself
-                lim = rss_limit * (3 if c.get("kind") == "race" else 1)
+                lim = rss_limit * (2 if c.get("kind") == "race" else 1)
                 if usage.get(c["proc"].pid, 0) > lim and not c.get("killed_rss"):
                     c["killed_rss"] = usage.get(c["proc"].pid, 0)
                     try:
